@@ -1,13 +1,74 @@
-import Ivg.Model.Decoder
+import Ivg.Lemmas.LoopC01
+import Ivg.Lemmas.Header
 import Ivg.Gen.Tie
 import Ivg.Obligations
-namespace Ivg.Props.C01
-open Ivg Enc Dec
+/-!
+# C01 — encode then decode reproduces the drawing program
 
-/-- placeholder sanity theorem: the default-metadata stream decodes to a single Reset. -/
-theorem default_stream_decodes :
-    (Dec.decode [] (({} : Encoder).bytes.1.buf)).2 = none := by
-  decide
+Model: `Ivg/Model/Encoder.lean` (encode/encode.go, encode/buffer.go), `Ivg/Model/Decoder.lean`
+(decode/decode.go, decode/buffer.go), `Ivg/Model/Color.lean` (color.go).
+
+`Q hi c` is the call the decoder delivers for an encoded call `c`: selectors masked to 6 bits,
+coordinates `rtCoord (quantize hi ·)`, LOD `rtReal`, NREG `rtNReg`, rotation `rtAngle`; ADJ,
+increment flags, arc flags and colours unchanged.  The round-trip functions are characterised in C08
+(`Ivg/Lemmas/Codec.lean`: exact when a short form applies, else `trunc30`, the 30-bit float).
+-/
+namespace Ivg.Props.C01
+open Ivg Num Enc Dec Codec RoundTrip EncoderInv Header LoopC01
+
+/-- **Forward direction, full strength on structure.**  For every viewBox that is valid after the
+    coordinate round trip (or is the default), every premultiplied suggested palette, either resolution
+    and every protocol-respecting program `p` (all ADJ values, all colour kinds constructible in Go,
+    runs of any length, any float operands, the last path possibly still open): `Bytes` succeeds and
+    decoding the bytes delivers `Reset` with the round-tripped metadata followed by exactly `p.map (Q hi)`,
+    without error. -/
+theorem encode_decode (vb : ViewBox F32) (pal : Palette) (hi : Bool) (p : List (Call F32)) (endPath : Bool)
+    (hv : vbNeDefault vb = true → VBValid vb) (hp : ∀ c ∈ pal.toList, c.validPremul = true)
+    (hproto : Proto false p endPath) :
+    let e := ({ (({} : Encoder).reset vb pal) with hiRes := hi } : Encoder).run p
+    ∃ bs, e.bytes.2 = .ok bs ∧ Dec.decode [] bs = (.reset (rtViewBox vb) pal :: p.map (Q hi), none) := by
+  intro e
+  have h0 : Inv hi (({} : Encoder).reset vb pal).buf ({ (({} : Encoder).reset vb pal) with hiRes := hi } : Encoder) [] false := by
+    refine ⟨rfl, rfl, rfl, by simp, fun _ => rfl, by simp [Encoder.reset], [], [], [], rfl, by simp, rfl, fun _ => rfl,
+      fun d hd => by simp [Encoder.reset] at hd, fun k => by simp [modeOf]⟩
+  have h1 := inv_run dstep p _ [] false endPath h0 hproto
+  obtain ⟨body, hb, hdec⟩ := inv_bytes dstep h1
+  refine ⟨_, hb, ?_⟩
+  rw [header_decodes _ vb pal hv hp body, hdec, Dc_nil]
+  simp
+
+/-- the same for a reused Encoder: `Reset` forgets whatever state came before (see also C17) -/
+theorem encode_decode_reused (e₀ : Encoder) (vb : ViewBox F32) (pal : Palette) (hi : Bool) (p : List (Call F32))
+    (endPath : Bool) (hv : vbNeDefault vb = true → VBValid vb) (hp : ∀ c ∈ pal.toList, c.validPremul = true)
+    (hproto : Proto false p endPath) :
+    let e := ({ (e₀.step (.reset vb pal)) with hiRes := hi } : Encoder).run p
+    ∃ bs, e.bytes.2 = .ok bs ∧ Dec.decode [] bs = (.reset (rtViewBox vb) pal :: p.map (Q hi), none) :=
+  encode_decode vb pal hi p endPath hv hp hproto
+
+/-- non-vacuity: a two-path program with a run, an arc, a blend and an incrementing register write -/
+example : Proto false
+    [.setCSel 70, .setCReg 0 true (Color.blendColor 40 0x7f 0x80), .setNReg 3 false ⟨0x3f000000⟩,
+     .startPath 2 ⟨0x3f800000⟩ ⟨0xc0000000⟩, .d2 .L ⟨0x40400000⟩ ⟨0x40400000⟩, .d2 .L ⟨0x40400000⟩ ⟨0⟩,
+     .arc true ⟨0x40000000⟩ ⟨0x40000000⟩ ⟨0x3e800000⟩ true false ⟨0x3f800000⟩ ⟨0x3f800000⟩, .closeEnd,
+     .setLOD ⟨0⟩ ⟨0x7f800000⟩, .startPath 0 ⟨0⟩ ⟨0⟩, .d1 .H ⟨0x41200000⟩, .closeEnd] false := by
+  simp [Proto, StylingOK, IsDrawing, drawOpOf, Color.WF, Color.blendColor]
+
+example : VBValid ⟨⟨0xc1c00000⟩, ⟨0xc1c00000⟩, ⟨0x41c00000⟩, ⟨0x41c00000⟩⟩ := by
+  unfold VBValid rtVB; decide +kernel
+
+/-!
+## Not proved here (documented gaps)
+* The converse ("every stream the decoder accepts can be fed to an Encoder …"): needs the lemma that the
+  calls the decoder delivers satisfy `Proto` with `StylingOK` (ADJ ≤ 6 by the opcode ranges, colours `WF`
+  by `decodeColor1_WF`) — checked on every run by the harness monitor `C01.converse-*`.
+* `VBValid` is stated on the round-tripped viewBox; that a finite valid viewBox stays valid needs
+  monotonicity of `rtCoord` (not proved).
+* "never drifts": idempotence of `Q hi` up to float `==` for coordinates and reals is in C08
+  (`roundtrip_idempotent`); for `quantize` it is monitored only.
+* Per-path change of resolution (`setHiRes` between paths) is covered by the correspondence runs only.
+-/
 
 end Ivg.Props.C01
-#obligations C01 [Ivg.Props.C01.default_stream_decodes, Ivg.Gen.Tie.drawOps_tie, Ivg.Gen.Tie.magic_tie]
+#obligations C01 [Ivg.Props.C01.encode_decode, Ivg.Props.C01.encode_decode_reused,
+  Ivg.EncoderInv.inv_run, Ivg.EncoderInv.chunks_dec, Ivg.Header.header_decodes, Ivg.LoopC01.loop_fuel,
+  Ivg.Gen.Tie.drawOps_tie, Ivg.Gen.Tie.magic_tie, Ivg.Gen.Tie.dc1Table_tie, Ivg.Gen.Tie.defaultViewBox_tie]
